@@ -50,7 +50,7 @@ def judge(job):
             ipath = vdoc.index_paths(root)
             where_of = lambda e: ipath.get(id(e))      # noqa: E731
             same = lambda a, b: a is b      # noqa: E731
-        nsmap = {"t": vdoc.T, "": vdoc.T}
+        nsmap = {"t": vdoc.T, "": vdoc.T, "x": vdoc.X}
         try:
             errors = list(s.iter_errors(root, namespaces=nsmap))
             valid = s.is_valid(root)
